@@ -60,6 +60,35 @@ int main(int argc, char** argv) {
     for (auto& L : ileaves) nlim += !L.error.empty();
     std::printf("LEAVES improve %zu (beyond the unrolling bound: %zu)\n", ileaves.size(), nlim);
     tr.write(argv[2]);
+    // ---- small integer inputs reaching every leaf of the tree of find_roots (path conditions evaluated on the candidates);
+    //      they are added to the corpus of the failing-input search by check.py
+    {
+      const int order2[] = {-3, 3, -6, 6, 0, -1, 1, -2, 2, -4, 4, -5, 5};
+      std::vector<int> found(leaves.size(), 0);
+      for (int c3 : {1, 2})
+        for (int c2 : order2)
+          for (int c1 = -12; c1 <= 12; ++c1)
+            for (int c0 = -16; c0 <= 16; ++c0) {
+              Env env{{"a3", c3}, {"a2", c2}, {"a1", c1}, {"a0", c0}};
+              for (size_t li = 0; li < leaves.size(); ++li) {
+                if (found[li] >= 3) continue;
+                bool ok = true;
+                std::map<int, long double> memo;
+                for (auto& cd : leaves[li].conds) {
+                  long double x = eval_node(cd.a, env, memo), y = eval_node(cd.b, env, memo);
+                  bool v = cd.rel == LT ? x < y : (cd.rel == LE ? x <= y : x == y);
+                  if (v != cd.value) { ok = false; break; }
+                }
+                if (ok) {
+                  ++found[li];
+                  std::printf("LEAFCASE %zu %d %d %d %d\n", li, c3, c2, c1, c0);
+                  break;
+                }
+              }
+            }
+      for (size_t li = 0; li < leaves.size(); ++li)
+        if (!found[li]) std::printf("LEAFUNREACHED %zu\n", li);
+    }
     // ---- agreement of the trees with the double instantiation
     auto agree = [&](const char* what, const std::vector<Leaf>& ls, const Env& env, const std::vector<double>& d, double scale,
                      bool skip_limit) {
